@@ -188,6 +188,11 @@ class HTTP2Connection(ConnectionInterface):
         The HTTP/2 connection requires some initial setup before we can start
         using individual request/response streams on it.
         """
+        if self._h2_state.state_machine.state == h2.connection.ConnectionState.CLOSED:
+            # An earlier request failed to set the connection up and has closed
+            # it while we were waiting for our turn.
+            raise ConnectionNotAvailable()
+
         # Need to set these manually here instead of manipulating via
         # __setitem__() otherwise the H2Connection will emit SettingsUpdate
         # frames in addition to sending the undesired defaults.
